@@ -301,6 +301,30 @@ theorem loop_bounded {stepf : St → Obs → St} {c : Cfg} {halt : Obs → Bool}
     · subst hm0; simp [run, hs] at hfalse
     · omega
 
+/-- From the constructor state the loop ends exactly at the first documented cause. -/
+theorem loop_init_first_cause {stepf : St → Obs → St} {c : Cfg} {halt : Obs → Bool} (H : IsCtl stepf c halt)
+    (obs : Nat → Obs) :
+    1 ≤ (loop stepf obs (fuelFor c St.init) 0 St.init).1 ∧
+    (budgetCause c ((loop stepf obs (fuelFor c St.init) 0 St.init).1 - 1) ∨
+      patienceCause c.patience obs ((loop stepf obs (fuelFor c St.init) 0 St.init).1 - 1) ∨
+      halt (obs ((loop stepf obs (fuelFor c St.init) 0 St.init).1 - 1)) = true) ∧
+    ∀ i, i + 1 < (loop stepf obs (fuelFor c St.init) 0 St.init).1 →
+      ¬ (budgetCause c i ∨ patienceCause c.patience obs i ∨ halt (obs i) = true) := by
+  obtain ⟨m, heq, hf, hb, _, _, h1⟩ := loop_bounded H obs St.init
+  rw [heq]
+  have hm : 1 ≤ m := h1 rfl
+  have hprev := (init_cont_iff H obs (m-1)).mp (hb (m-1) (by omega))
+  refine ⟨hm, ?_, fun i hi => hprev i (by omega)⟩
+  by_cases hcause : (budgetCause c (m-1) ∨ patienceCause c.patience obs (m-1) ∨ halt (obs (m-1)) = true)
+  · exact hcause
+  · have : (run stepf St.init obs m).cont = true :=
+      (init_cont_iff H obs m).mpr fun i hi => by
+        by_cases him : i = m - 1
+        · subst him; exact hcause
+        · exact hprev i (by omega)
+    rw [hf] at this
+    exact absurd this (by decide)
+
 /-! ### numeric layer over ℝ -/
 section real
 
